@@ -46,8 +46,13 @@ structure Pin where
 /-- int32 truncation done by the protobuf fields. -/
 def wrap32 (x : Int) : Int := (x + 2147483648) % 4294967296 - 2147483648
 
+/-- number of right shifts until 1 is reached (`fuel` ≥ the value is enough) -/
+def shifts : Nat → Nat → Nat
+  | 0, _ => 0
+  | fuel + 1, n => if n ≥ 2 then shifts fuel (n / 2) + 1 else 0
+
 /-- `convertPinType` then `1 << GetType()`: the highest set bit (0 gives BadType = 1). -/
-def normType (t : Nat) : Nat := if t = 0 then 1 else 2 ^ Nat.log2 t
+def normType (t : Nat) : Nat := if t = 0 then 1 else 2 ^ shifts t t
 
 /-- `PinDepth.ToPinMode`. -/
 def depthMode (d : Int) : Nat := if d = 0 then 1 else 0
@@ -105,8 +110,7 @@ def sortedMap : PinMap → Bool
 /-- `State.Marshal`: one `serialEntry{key, value}` per stored pin, in the datastore's query
     order (`order` is any arrangement of the entries: see `isArrangement`). The value bytes
     are the protobuf of the stored pin, the key its cid: an entry is the stored pin itself. -/
-def isArrangement (m : PinMap) (stream : List Pin) : Bool :=
-  stream.length == m.length && m.all (fun p => stream.contains p)
+def isArrangement (m : PinMap) (stream : List Pin) : Bool := stream.isPerm m
 
 /-- `State.Unmarshal` (after aaef85d): delete every key of the namespace, then put each entry. -/
 def unmarshal (_prior : PinMap) (stream : List Pin) : PinMap := putAll [] stream
@@ -298,7 +302,7 @@ def insertSorted (a : Nat) : List Nat → List Nat
   | b :: t => if a ≤ b then a :: b :: t else b :: insertSorted a t
 def sortNat (l : List Nat) : List Nat := l.foldr insertSorted []
 
-def sameMembers (a b : List Nat) : Bool := a.length == b.length && a.all b.contains && b.all a.contains
+def sameMembers (a b : List Nat) : Bool := a.isPerm b
 
 /-- `filteredPeerAddrs`: what the code may return for a peer: its DNS addresses in the
     address book's (map) order if it has any, else all addresses sorted by string. -/
@@ -318,7 +322,7 @@ def sortedByPrio (known : List Known) : List Nat → Bool
 
 /-- `PeerInfos`: the listed peers in non-decreasing priority (ties in any order: `sort.Sort`) -/
 def peerInfosAllowed (i : PSInput) (out : List (Nat × List Nat)) : Bool :=
-  sameMembers (out.map (·.1)) (listed i) && sortedByPrio i.known (out.map (·.1)) &&
+  (out.map (·.1)).isPerm (listed i) && sortedByPrio i.known (out.map (·.1)) &&
   out.all (fun e => addrsAllowed i.known e.1 e.2)
 
 /-- one deterministic resolution (stable insertion sort, DNS addresses in book order) -/
@@ -352,19 +356,23 @@ def Line.loads : Line → Bool
 /-- `LoadPeerstore` (after fcf3a57): every line that parses, in file order -/
 def load (file : List Line) : List Line := file.filter Line.loads
 
-/-- priority `ImportPeers` leaves on a peer: the index of its last importable entry -/
+/-- `ImportPeers` walks the loaded addresses with their index `i` and sets priority `i` on the
+    peer of every importable entry: what remains is the index of the peer's last entry -/
+def lastIdx (p : Nat) : List Line → Nat → Option Nat → Option Nat
+  | [], _, acc => acc
+  | l :: t, i, acc => lastIdx p t (i + 1) (match l with
+      | .full _ q => if q = p then some i else acc
+      | _ => acc)
+
+/-- priority `ImportPeers` leaves on a peer (our own entries are not imported) -/
 def importPrio (self : Nat) (loaded : List Line) (p : Nat) : Option Nat :=
-  let idx := (List.range loaded.length).filter (fun i =>
-    match (loaded[i]? : Option Line) with
-    | some (Line.full _ q) => q == p
-    | _ => false)
-  if p == self then none else idx.getLast?
+  if p = self then none else lastIdx p loaded 0 none
 
 /-- peerstore of a fresh host `self` after `ImportPeers(loaded)` -/
 def importPeers (self : Nat) (loaded : List Line) (univ : List Nat) : List Known :=
   univ.filterMap (fun p =>
     let as := loaded.filterMap (fun l => match l with
-      | .full a q => if q == p && p != self then some a else none
+      | .full a q => if q = p ∧ p ≠ self then some a else none
       | _ => none)
     match importPrio self loaded p with
     | none => none
